@@ -17,3 +17,5 @@ import LyModel.Props.C11Range
 #print axioms LyModel.Props.C11.range_subset_sound_fixed
 #print axioms LyModel.Props.C11.range_parse_safe_fixed
 #print axioms LyModel.Props.C11.range_validate_fixed
+#print axioms LyModel.Props.C11.range_parse_correct_fails
+#print axioms LyModel.Props.C11.range_parse_correct_partial
